@@ -6,6 +6,7 @@ package main
 // ref.go) and for every item of a batch (per-item reference, batch.go).
 
 import (
+	"context"
 	"fmt"
 
 	flyt "github.com/mark3labs/flyt"
@@ -21,13 +22,28 @@ func retryMenu(h *H, c call) []answer {
 	case pPrep:
 		return []answer{{val: pvPtr}}
 	case pExec:
-		return []answer{{val: evPtr}, {err: errExec[c.attempt]}}
+		// the third alternative is an error that WRAPS a context error although the
+		// run's own context is alive (e.g. an inner per-attempt timeout): it is an
+		// ordinary attempt failure
+		return []answer{{val: evPtr}, {val: junkPtr, err: errExec[c.attempt]}, {err: errExecCtx[c.attempt]}}
 	case pFallback:
 		return []answer{{val: fvPtr}, {err: errFb}}
 	default:
 		return []answer{{action: "x"}}
 	}
 }
+
+var errExecCtx = func() []error {
+	var l []error
+	for i := 0; i < 12; i++ {
+		if i%2 == 0 {
+			l = append(l, fmt.Errorf("attempt-%d inner timeout: %w", i, context.DeadlineExceeded))
+		} else {
+			l = append(l, fmt.Errorf("attempt-%d inner cancel: %w", i, context.Canceled))
+		}
+	}
+	return l
+}()
 
 func genC02(tier string) []Scenario {
 	var out []Scenario
@@ -72,6 +88,19 @@ func genC02(tier string) []Scenario {
 						shape: shResults, yield: c > 0, execMenu: okOrErrMenu, fbMenu: fbOkOrErr, postMenu: postX, bound: 0, chkPerItem: true}
 					out = append(out, sc.scenario())
 				}
+			}
+		}
+	}
+	// stop-on-error batches: every item that IS executed still gets exactly its own budget
+	for _, c := range []int{0, 2} {
+		for _, budget := range []int{2, 3} {
+			for _, fb := range []bool{false, true} {
+				if budget == 3 && c == 2 && !th {
+					continue
+				}
+				sc := batchScn{name: fmt.Sprintf("retry-batch-item-stopmode n=2 c=%d budget=%d fallback=%v", c, budget, fb), n: 2, c: c, stop: true, budget: budget, fb: fb,
+					shape: shResults, yield: c > 0, execMenu: okOrErrMenu, fbMenu: fbOkOrErr, postMenu: postX, bound: 0, chkPerItem: true}
+				out = append(out, sc.scenario())
 			}
 		}
 	}
